@@ -129,6 +129,27 @@ def run(repo: Repo, tier: str, res: CheckResult, seed: int = 0) -> None:
                                         f"Template substitution value has provenance {sorted(kinds)}; not code-safe",
                                         node.lineno))
     res.count("TAINT.template-substitutions", n_subst, 3)
+    # the TEXT of a string.Template is interpreted a second time by substitute(): a hole that is safe as Python source under
+    # !r (a user key) is not safe there -- `$` inside the key is template syntax (KeyError / ValueError at generation, or a
+    # silently different key)
+    for sm in GEN_MODULES:
+        m = repo.mod(sm)
+        for node in ast.walk(m.tree):
+            if isinstance(node, ast.Call) and norm(node.func) in ("Template", "string.Template") and node.args \
+                    and isinstance(node.args[0], ast.JoinedStr):
+                fn = m.enclosing_function(node)
+                fctx = ctx_for(repo, m, fn) if fn is not None else None
+                for v in node.args[0].values:
+                    if not isinstance(v, ast.FormattedValue):
+                        continue
+                    kinds = SK.classify(v.value, fctx, m)
+                    res.evaluated(f"{m.rel}:{m.qualname(node)}:template-text:{norm(v.value)}", True)
+                    if kinds - {"CONST", "CODE", "INT", "LITERAL", "SANITIZED", "IDENT", "NONE"}:
+                        res.add(Finding("C19", "TAINT.template-second-pass", m.rel, m.qualname(node),
+                                        f"Template(f'..{{{norm(v.value)}{'!r' if v.conversion == ord('r') else ''}}}..')",
+                                        f"`{norm(v.value)}` (provenance {sorted(kinds)}) is interpolated into the text of a "
+                                        "string.Template: substitute() interprets `$` inside it, so a key such as 'US$' or '$ref' "
+                                        "breaks generation and '$$' / '$value' silently change the key", node.lineno))
 
     # identifiers handed to the ast builders
     n_ast = 0
